@@ -227,7 +227,7 @@ def run(ctx):
     for _ in range(ctx.budget(120, 4000)):
         c2 = gen_two_level(rng)
         if c2 is not None:
-            check_two_level(ctx, c2)
+            ctx.guard(check_two_level, c2)
     alphabet = "ABCDEFGHIJKLMNOPQRSTUVWXYZabcdefghijklmnopqrstuvwxyz0123456789_"
     for enz in asm.pick_enzymes(rng, ctx.budget(250, 10000)):
         g = asm.gen_wellformed(rng, enz, rng.randint(1, 5))
@@ -248,4 +248,4 @@ def run(ctx):
                     break
         case["id"] = "".join(rng.choice(alphabet) for _ in range(rng.randint(1, 16)))
         case["name"] = "".join(rng.choice(alphabet) for _ in range(rng.randint(1, 16)))
-        check_case(ctx, case)
+        ctx.guard(check_case, case)
